@@ -5,7 +5,7 @@ import time
 import os
 import z3
 
-from .values import (simp, zbool, zint, lits_distinct, Unsupported, Raised, SBytes, RootBuf,
+from .values import (simp, zbool, zint, lits_distinct, lit_table, Unsupported, Raised, SBytes, RootBuf,
                      ByteArr, PyStr, is_z3, I)
 
 
@@ -134,9 +134,16 @@ class Ctx:
             raise Infeasible()
         self.solver.add(zbool(cond))
 
+    def _sync_lits(self):
+        n = len(lit_table())
+        if n != getattr(self, '_lits_n', 0):
+            self._lits_n = n
+            self.solver.add(lits_distinct())
+
     def _check(self, *extra):
         t0 = time.time()
-        r = self.solver.check(lits_distinct(), *extra)
+        self._sync_lits()
+        r = self.solver.check(*extra)
         self.solver_secs += time.time() - t0
         self.n_queries += 1
         return r
@@ -159,7 +166,11 @@ class Ctx:
             choice = self.prefix[k]
         else:
             t = self.feasible(cond)
-            f = self.feasible(z3.Not(cond))
+            if not t:
+                # the path condition is satisfiable (it was when we got here), so the negation must be
+                f = True
+            else:
+                f = self.feasible(z3.Not(cond))
             if t and f:
                 self.pending.append(self.trace + [False])
                 choice = True
@@ -172,6 +183,19 @@ class Ctx:
         self.trace.append(choice)
         self.solver.add(cond if choice else z3.Not(cond))
         return choice
+
+    def concretize(self, t):
+        """if the path condition fixes the value of an int term, return that Python int (sound rewriting)"""
+        if not is_z3(t):
+            return t
+        if self._check() != z3.sat:
+            return t
+        v = self.solver.model().eval(t, model_completion=True)
+        if not z3.is_int_value(v):
+            return t
+        if self._check(t != v) == z3.unsat:
+            return v.as_long()
+        return t
 
     def is_true(self, cond):
         """is cond valid under the path condition? (no branching)"""
@@ -204,26 +228,26 @@ class Ctx:
         secs = time.time() - t0
         if r == z3.unsat:
             self.obligations.append(Obligation(name, 'discharged', detail, solver=solver, secs=secs, kind=kind,
-                                               goal=str(g)[:400], path=list(self.trace)))
+                                               goal=g.sexpr()[:300], path=list(self.trace)))
             self.solver.add(g)
             return True
         if r == z3.sat:
             m = self.solver.model()
             hints = self.small_hints()
             if hints:
-                if self.solver.check(lits_distinct(), z3.Not(g), *hints) == z3.sat:
+                if self.solver.check(z3.Not(g), *hints) == z3.sat:
                     m = self.solver.model()
             if getattr(self, 'extractor', None):
                 m = ModelInfo(self.extractor(m), str(m)[:3000])
-            self.obligations.append(Obligation(name, 'failed', detail, model=m, goal=str(g)[:2000], solver=solver,
+            self.obligations.append(Obligation(name, 'failed', detail, model=m, goal=g.sexpr()[:2000], solver=solver,
                                                secs=secs, kind=kind, path=list(self.trace)))
         elif r == 'sat-cvc5':
             self.obligations.append(Obligation(name, 'failed', detail + ' (cvc5 sat, no model)', model=None,
-                                               goal=str(g)[:2000], solver=solver, secs=secs, kind=kind,
+                                               goal=g.sexpr()[:2000], solver=solver, secs=secs, kind=kind,
                                                path=list(self.trace)))
         else:
             self.obligations.append(Obligation(name, 'unknown', detail + ' reason=' + self.solver.reason_unknown(),
-                                               goal=str(g)[:2000], solver=solver, secs=secs, kind=kind,
+                                               goal=g.sexpr()[:2000], solver=solver, secs=secs, kind=kind,
                                                path=list(self.trace)))
         # continue the path under the assumption that the goal holds
         try:
@@ -247,7 +271,7 @@ class Ctx:
         m = self.solver.model() if r == z3.sat else None
         if m is not None:
             hints = self.small_hints()
-            if hints and self.solver.check(lits_distinct(), *hints) == z3.sat:
+            if hints and self.solver.check(*hints) == z3.sat:
                 m = self.solver.model()
             if getattr(self, 'extractor', None):
                 m = ModelInfo(self.extractor(m), str(m)[:3000])
